@@ -170,6 +170,10 @@ class LiveFault(explore.Scenario):
             return [(f"C03:live:{rt.verdict}:{shape}", f"execution ended in {rt.verdict}; blocked: {stuck}; locks {rt.final_locks}")]
         errs = []
         flags = obs.get("flags", {})
+        if rt.runaways:
+            errs.append((f"C03:live:worker-never-returns:{'+'.join(sorted(set(n.rstrip('0123456789') for n in rt.runaways)))}:{shape}",
+                         f"thread(s) {rt.runaways} computed without end (no scheduling point in "
+                         f"150000 library calls) after {P['fault']} arrived in {P['state']}"))
         if fin["blocked_api"]:
             errs.append((f"C03:live:api-call-hangs:{'+'.join(fin['blocked_api'])}:{shape}",
                          f"local API call(s) {fin['blocked_api']} did not return after {P['fault']} arrived in {P['state']}"))
